@@ -82,4 +82,75 @@ theorem Text_WithAttrs_eq (fuel : Nat) (P : Std) (h : Handler) (as : List Attr)
     · simp
     · simp; omega
 
+/-! ### appendTextSource
+
+The Go loop is the one of `appendJsonSource` (`Tie/TrJson.lean`: `source_loop_step`, `finalFirst`,
+`sliceFrom_trim`); the Text model writes the result as a scan over the reversed tail
+(`sourceScan`), the JSON model as an index computation (`sourceLoop`): `trimSource_text_json` shows
+they are the same function. -/
+
+/-- the Text model's scan over the reversed first `n` bytes of the tail `t` of the file name is the
+    JSON model's index loop started at index `n` -/
+theorem sourceScan_sourceLoop (c : UInt8) (t : Bytes) : ∀ (n : Nat) (first : Bool), n ≤ t.length →
+    sourceScan (t.take n).reverse first (t.drop n)
+      = t.drop (Glb.JsonHandler.sourceLoop (c :: t) n first) := by
+  intro n
+  induction n with
+  | zero => intro first _; simp [sourceScan, Glb.JsonHandler.sourceLoop]
+  | succ k ih =>
+    intro first hk
+    have hk' : k < t.length := by omega
+    have hget : (c :: t)[k + 1]? = some t[k] := by
+      simp [List.getElem?_eq_getElem hk']
+    rw [List.take_succ_eq_append_getElem hk', List.reverse_append]
+    simp only [List.reverse_cons, List.reverse_nil, List.nil_append, List.cons_append, sourceScan,
+      Glb.JsonHandler.sourceLoop, hget, Option.some_beq_some, List.getElem_cons_drop hk']
+    by_cases hc : (t[k] == 0x2f) = true
+    · cases first
+      · simp only [hc, if_true, Bool.false_eq_true, if_false]
+        exact ih true (by omega)
+      · simp [hc]
+    · simp only [hc, Bool.false_eq_true, if_false]
+      exact ih first (by omega)
+
+/-- the two models of `f.File[idx+1:]` agree -/
+theorem trimSource_text_json (file : Bytes) :
+    Glb.TextHandler.trimSource file = Glb.JsonHandler.trimSource file := by
+  cases file with
+  | nil => simp [Glb.TextHandler.trimSource, Glb.JsonHandler.trimSource]
+  | cons c t =>
+    have := sourceScan_sourceLoop c t t.length false (Nat.le_refl _)
+    simp only [List.take_length, List.drop_length] at this
+    simp [Glb.TextHandler.trimSource, Glb.JsonHandler.trimSource, this]
+
+/-- **Tie.** `appendTextSource`, as translated, hands `trimSource file ++ ":" ++ itoa line` to
+    `appendTextString`, for every file name and line number; it never panics. -/
+theorem appendTextSource_eq (P : Std) (buf file : Bytes) (line : Int) :
+    Glb.Tr.Logger.appendTextSource P buf file line
+      = .ok (Glb.TextHandler.appendTextString P buf
+          (Glb.TextHandler.trimSource file ++ [0x3a] ++ Glb.Go.Lib.itoa line)) := by
+  unfold Glb.Tr.Logger.appendTextSource
+  dsimp only
+  rw [loop_eq (σ := Bool × Int) (ρ := Bytes)
+    (Inv := fun st => -1 ≤ st.2 ∧ st.2 < file.length)
+    (measure := fun st => (st.2 + 1).toNat)
+    (model := fun st => if st.2 < 0 then .ok (.inl st) else
+        .ok (.inl (Glb.Tie.TrJson.finalFirst file st.2.toNat st.1,
+                   (Glb.JsonHandler.sourceLoop file st.2.toNat st.1 : Int))))]
+  · -- after the loop
+    simp only [len_eq]
+    have key := Glb.Tie.TrJson.sliceFrom_trim file
+    rw [trimSource_text_json]
+    by_cases h : ((file.length : Int) - 1) < 0
+    · simp only [h, ↓reduceIte] at key ⊢
+      simp only [bind, Except.bind, pure, Except.pure, key, ToInt.toInt, id, add_bytes,
+        Glb.Tie.TrText.appendTextString_eq]
+    · have h2 : ((file.length : Int) - 1).toNat = file.length - 1 := by omega
+      simp only [h, ↓reduceIte, h2] at key ⊢
+      simp only [bind, Except.bind, pure, Except.pure, key, ToInt.toInt, id, add_bytes,
+        Glb.Tie.TrText.appendTextString_eq]
+  · open Glb.Tie.TrJson in source_loop_step
+  · refine ⟨?_, ?_⟩ <;> (try simp) <;> omega
+  · simp; omega
+
 end Glb.Tie.TrTextHandler
